@@ -246,6 +246,28 @@ func vpYield(label string) {
 	<-ch
 }
 
+// vpYieldLazy: natively the same baton; the goroutine stays parked (durably blocked, so the bubble's clock
+// keeps running) until the recorded resume order reaches it, or maxWait elapses.
+func vpYieldLazy(label string, maxWait time.Duration) {
+	vpR.mu.Lock()
+	if vpR.freeRun {
+		vpR.mu.Unlock()
+		time.Sleep(maxWait)
+		return
+	}
+	ch := make(chan struct{})
+	vpR.waiters[label] = append(vpR.waiters[label], ch)
+	vpR.mu.Unlock()
+	select {
+	case vpR.arrived <- struct{}{}:
+	default:
+	}
+	select {
+	case <-ch:
+	case <-time.After(maxWait):
+	}
+}
+
 // vpReleaseNext releases one goroutine parked at label; false if none is parked there.
 func vpReleaseNext(label string) bool {
 	vpR.mu.Lock()
